@@ -16,16 +16,16 @@ Proof.
 Qed.
 
 Lemma loop_indep body i cnt :
-  (forall w fr o w' fr' t, body w fr = Some (o, w', fr', t) -> silent t ->
-      w' = w /\ forall w2, same_pure w w2 -> body w2 fr = Some (o, w2, fr', t)) ->
-  forall cur w fr o w' fr' t, loop body i cnt cur w fr = Some (o, w', fr', t) -> silent t ->
-      w' = w /\ forall w2, same_pure w w2 -> loop body i cnt cur w2 fr = Some (o, w2, fr', t).
+  (forall w fr o w' fr' t, body w fr = Done (o, w', fr', t) -> silent t ->
+      w' = w /\ forall w2, same_pure w w2 -> body w2 fr = Done (o, w2, fr', t)) ->
+  forall cur w fr o w' fr' t, loop body i cnt cur w fr = Done (o, w', fr', t) -> silent t ->
+      w' = w /\ forall w2, same_pure w w2 -> loop body i cnt cur w2 fr = Done (o, w2, fr', t).
 Proof.
   intros Hb. induction cnt as [|c IH]; intros cur w fr o w' fr' t H S; cbn in H.
   - inversion H; subst. split; auto.
-  - destruct (body w _) as [[[[o1 w1] fr2] t1]|] eqn:E; [|discriminate].
+  - destruct (body w _) as [[[[o1 w1] fr2] t1]| |] eqn:E; try discriminate.
     destruct o1.
-    + destruct (loop body i c (cur + 1) w1 fr2) as [[[[o2 w2] fr3] t2]|] eqn:E2; [|discriminate].
+    + destruct (loop body i c (cur + 1) w1 fr2) as [[[[o2 w2] fr3] t2]| |] eqn:E2; try discriminate.
       inversion H; subst. apply silent_cons in S. destruct S as [_ S]. apply silent_app in S. destruct S as [S1 S2].
       destruct (Hb _ _ _ _ _ _ E S1) as [-> Hb2].
       destruct (IH _ _ _ _ _ _ _ E2 S2) as [-> IH2].
@@ -39,10 +39,10 @@ Lemma rd_indep p w w2 fr k x : is_state k = false -> rd p w fr k x = rd p w2 fr 
 Proof. destruct k; cbn; intros; try discriminate; reflexivity. Qed.
 
 Lemma pure_frame p : forall n,
-  (forall w fr e v w' t, eval n p w fr e = Some (v, w', t) -> silent t ->
-      w' = w /\ forall w2, same_pure w w2 -> eval n p w2 fr e = Some (v, w2, t)) /\
-  (forall w fr s o w' fr' t, exec n p w fr s = Some (o, w', fr', t) -> silent t ->
-      w' = w /\ forall w2, same_pure w w2 -> exec n p w2 fr s = Some (o, w2, fr', t)).
+  (forall w fr e v w' t, eval n p w fr e = Done (v, w', t) -> silent t ->
+      w' = w /\ forall w2, same_pure w w2 -> eval n p w2 fr e = Done (v, w2, t)) /\
+  (forall w fr s o w' fr' t, exec n p w fr s = Done (o, w', fr', t) -> silent t ->
+      w' = w /\ forall w2, same_pure w w2 -> exec n p w2 fr s = Done (o, w2, fr', t)).
 Proof.
   induction n as [|n [IHe IHs]]; [split; intros; discriminate|]. split.
   - intros w fr e v w' t H S. destruct e; cbn in H.
@@ -52,18 +52,18 @@ Proof.
     + inversion H; subst. discriminate S.
     + inversion H; subst. discriminate S.
     + inversion H; subst. discriminate S.
-    + destruct (eval n p w fr e1) as [[[va w1] t1]|] eqn:E1; [|discriminate].
-      destruct (eval n p w1 fr e2) as [[[vb w2] t2]|] eqn:E2; [|discriminate].
+    + destruct (eval n p w fr e1) as [[[va w1] t1]| |] eqn:E1; try discriminate.
+      destruct (eval n p w1 fr e2) as [[[vb w2] t2]| |] eqn:E2; try discriminate.
       inversion H; subst. apply silent_app in S. destruct S as [S1 S2].
       destruct (IHe _ _ _ _ _ _ E1 S1) as [-> A1]. destruct (IHe _ _ _ _ _ _ E2 S2) as [-> A2].
       split; auto. intros w3 Hw. cbn. rewrite (A1 w3 Hw), (A2 w3 Hw). reflexivity.
-    + destruct (eval n p w fr e) as [[[va w1] t1]|] eqn:E1; [|discriminate].
+    + destruct (eval n p w fr e) as [[[va w1] t1]| |] eqn:E1; try discriminate.
       destruct (nth_error (funs p) f) as [g|] eqn:Eg; [|discriminate].
-      destruct (exec n p w1 _ (fbody g)) as [[[[o w2] fr2] t2]|] eqn:E2; [|discriminate].
+      destruct (exec n p w1 _ (fbody g)) as [[[[o w2] fr2] t2]| |] eqn:E2; try discriminate.
       inversion H; subst. apply silent_app in S. destruct S as [S1 S2].
       destruct (IHe _ _ _ _ _ _ E1 S1) as [-> A1]. destruct (IHs _ _ _ _ _ _ _ E2 S2) as [-> A2].
       split; auto. intros w3 Hw. cbn. rewrite (A1 w3 Hw), Eg, (A2 w3 Hw). reflexivity.
-    + destruct (eval n p w fr e) as [[[va w1] t1]|] eqn:E1; [|discriminate].
+    + destruct (eval n p w fr e) as [[[va w1] t1]| |] eqn:E1; try discriminate.
       destruct k.
       * destruct (ext_mod w1 (sto w1) va) as [s r]. inversion H; subst.
         apply silent_app in S. destruct S as [_ S2]. discriminate S2.
@@ -73,7 +73,7 @@ Proof.
         -- apply silent_app in S. destruct S as [_ S2]. discriminate S2.
         -- apply silent_app in S. destruct S as [_ S2]. discriminate S2.
         -- apply silent_app in S. destruct S as [_ S2]. discriminate S2.
-    + destruct (eval n p w fr e) as [[[va w1] t1]|] eqn:E1; [|discriminate].
+    + destruct (eval n p w fr e) as [[[va w1] t1]| |] eqn:E1; try discriminate.
       destruct m.
       * inversion H; subst. destruct (IHe _ _ _ _ _ _ E1 S) as [-> A1]. split; auto.
         intros w3 Hw. cbn. rewrite (A1 w3 Hw). unfold same_pure in Hw. rewrite Hw. reflexivity.
@@ -84,67 +84,67 @@ Proof.
         apply silent_app in S. destruct S as [_ S2]. discriminate S2.
   - intros w fr s o w' fr' t H S. destruct s; cbn in H.
     + inversion H; subst. split; auto.
-    + destruct (exec n p w fr s1) as [[[[o1 w1] fr1] t1]|] eqn:E1; [|discriminate].
+    + destruct (exec n p w fr s1) as [[[[o1 w1] fr1] t1]| |] eqn:E1; try discriminate.
       destruct o1.
-      * destruct (exec n p w1 fr1 s2) as [[[[o2 w2] fr2] t2]|] eqn:E2; [|discriminate].
+      * destruct (exec n p w1 fr1 s2) as [[[[o2 w2] fr2] t2]| |] eqn:E2; try discriminate.
         inversion H; subst. apply silent_app in S. destruct S as [S1 S2].
         destruct (IHs _ _ _ _ _ _ _ E1 S1) as [-> A1]. destruct (IHs _ _ _ _ _ _ _ E2 S2) as [-> A2].
         split; auto. intros w3 Hw. cbn. rewrite (A1 w3 Hw), (A2 w3 Hw). reflexivity.
       * inversion H; subst. destruct (IHs _ _ _ _ _ _ _ E1 S) as [-> A1].
         split; auto. intros w3 Hw. cbn. rewrite (A1 w3 Hw). reflexivity.
-    + (* assign *) destruct (eval n p w fr e) as [[[v w1] t1]|] eqn:E1; [|discriminate].
+    + (* assign *) destruct (eval n p w fr e) as [[[v w1] t1]| |] eqn:E1; try discriminate.
       destruct (wr w1 fr k x v) as [[w2 fr2] t2] eqn:Ew. inversion H; subst.
       apply silent_app in S. destruct S as [S1 S2]. destruct (IHe _ _ _ _ _ _ E1 S1) as [-> A1].
       destruct k; cbn in Ew; inversion Ew; subst; try discriminate S2;
         (split; auto; intros w3 Hw; cbn; rewrite (A1 w3 Hw); reflexivity).
-    + (* aug *) destruct (eval n p w fr e) as [[[v w1] t1]|] eqn:E1; [|discriminate].
+    + (* aug *) destruct (eval n p w fr e) as [[[v w1] t1]| |] eqn:E1; try discriminate.
       destruct (wr w1 fr k x _) as [[w2 fr2] t2] eqn:Ew. inversion H; subst.
       apply silent_app in S. destruct S as [S0 S]. apply silent_app in S. destruct S as [S1 S2].
       destruct (IHe _ _ _ _ _ _ E1 S1) as [-> A1].
       destruct k; cbn in Ew; inversion Ew; subst; try discriminate S2; try discriminate S0;
         (split; auto; intros w3 Hw; cbn; rewrite (A1 w3 Hw); reflexivity).
-    + destruct (eval n p w fr e) as [[[v w1] t1]|] eqn:E1; [|discriminate]. inversion H; subst.
+    + destruct (eval n p w fr e) as [[[v w1] t1]| |] eqn:E1; try discriminate. inversion H; subst.
       destruct (IHe _ _ _ _ _ _ E1 S) as [-> A1]. split; auto. intros w3 Hw. cbn. rewrite (A1 w3 Hw). reflexivity.
-    + destruct (eval n p w fr e) as [[[v w1] t1]|] eqn:E1; [|discriminate]. inversion H; subst.
+    + destruct (eval n p w fr e) as [[[v w1] t1]| |] eqn:E1; try discriminate. inversion H; subst.
       apply silent_app in S. destruct S as [_ S2]. discriminate S2.
-    + destruct (eval n p w fr c) as [[[v w1] t1]|] eqn:E1; [|discriminate].
-      destruct (exec n p w1 fr (if v =? 0 then s2 else s1)) as [[[[o2 w2] fr2] t2]|] eqn:E2; [|discriminate].
+    + destruct (eval n p w fr c) as [[[v w1] t1]| |] eqn:E1; try discriminate.
+      destruct (exec n p w1 fr (if v =? 0 then s2 else s1)) as [[[[o2 w2] fr2] t2]| |] eqn:E2; try discriminate.
       inversion H; subst. apply silent_app in S. destruct S as [S1 S2].
       destruct (IHe _ _ _ _ _ _ E1 S1) as [-> A1]. destruct (IHs _ _ _ _ _ _ _ E2 S2) as [-> A2].
       split; auto. intros w3 Hw. cbn. rewrite (A1 w3 Hw), (A2 w3 Hw). reflexivity.
-    + assert (Hbody : forall w fr o w' fr' t, (fun w' fr' => exec n p w' fr' s) w fr = Some (o, w', fr', t) -> silent t ->
-                 w' = w /\ forall w2, same_pure w w2 -> (fun w' fr' => exec n p w' fr' s) w2 fr = Some (o, w2, fr', t))
+    + assert (Hbody : forall w fr o w' fr' t, (fun w' fr' => exec n p w' fr' s) w fr = Done (o, w', fr', t) -> silent t ->
+                 w' = w /\ forall w2, same_pure w w2 -> (fun w' fr' => exec n p w' fr' s) w2 fr = Done (o, w2, fr', t))
         by (intros ? ? ? ? ? ? H0 S0; cbv beta in *; eauto).
       destruct r.
       * destruct (loop_indep _ i _ Hbody _ _ _ _ _ _ _ H S) as [-> A]. split; auto.
-      * destruct (eval n p w fr e) as [[[v w1] t1]|] eqn:E1; [|discriminate].
+      * destruct (eval n p w fr e) as [[[v w1] t1]| |] eqn:E1; try discriminate.
         destruct (K <? v) eqn:EK; [discriminate|].
-        destruct (loop _ i (Z.to_nat v) 0 w1 fr) as [[[[o2 w2] fr2] t2]|] eqn:E2; [|discriminate].
+        destruct (loop _ i (Z.to_nat v) 0 w1 fr) as [[[[o2 w2] fr2] t2]| |] eqn:E2; try discriminate.
         inversion H; subst. apply silent_app in S. destruct S as [S1 S2].
         destruct (IHe _ _ _ _ _ _ E1 S1) as [-> A1].
         destruct (loop_indep _ i _ Hbody _ _ _ _ _ _ _ E2 S2) as [-> A2]. split; auto.
         intros w3 Hw. cbn. rewrite (A1 w3 Hw), EK, (A2 w3 Hw). reflexivity.
-      * destruct (eval n p w fr e) as [[[v w1] t1]|] eqn:E1; [|discriminate].
-        destruct (loop _ i (Z.to_nat v) 0 w1 fr) as [[[[o2 w2] fr2] t2]|] eqn:E2; [|discriminate].
+      * destruct (eval n p w fr e) as [[[v w1] t1]| |] eqn:E1; try discriminate.
+        destruct (loop _ i (Z.to_nat v) 0 w1 fr) as [[[[o2 w2] fr2] t2]| |] eqn:E2; try discriminate.
         inversion H; subst. apply silent_app in S. destruct S as [S1 S2].
         destruct (IHe _ _ _ _ _ _ E1 S1) as [-> A1].
         destruct (loop_indep _ i _ Hbody _ _ _ _ _ _ _ E2 S2) as [-> A2]. split; auto.
         intros w3 Hw. cbn. rewrite (A1 w3 Hw), (A2 w3 Hw). reflexivity.
-    + assert (Hbody : forall w fr o w' fr' t, (fun w' fr' => exec n p w' fr' s) w fr = Some (o, w', fr', t) -> silent t ->
-                 w' = w /\ forall w2, same_pure w w2 -> (fun w' fr' => exec n p w' fr' s) w2 fr = Some (o, w2, fr', t))
+    + assert (Hbody : forall w fr o w' fr' t, (fun w' fr' => exec n p w' fr' s) w fr = Done (o, w', fr', t) -> silent t ->
+                 w' = w /\ forall w2, same_pure w w2 -> (fun w' fr' => exec n p w' fr' s) w2 fr = Done (o, w2, fr', t))
         by (intros ? ? ? ? ? ? H0 S0; cbv beta in *; eauto).
-      destruct (loop _ i len 0 w fr) as [[[[o2 w2] fr2] t2]|] eqn:E2; [|discriminate].
+      destruct (loop _ i len 0 w fr) as [[[[o2 w2] fr2] t2]| |] eqn:E2; try discriminate.
       inversion H; subst. apply silent_app in S. destruct S as [S1 S2].
       destruct (loop_indep _ i _ Hbody _ _ _ _ _ _ _ E2 S2) as [-> A2]. split; auto.
       intros w3 Hw. cbn. rewrite (A2 w3 Hw). reflexivity.
-    + destruct (eval n p w fr e) as [[[v w1] t1]|] eqn:E1; [|discriminate]. inversion H; subst.
+    + destruct (eval n p w fr e) as [[[v w1] t1]| |] eqn:E1; try discriminate. inversion H; subst.
       destruct (IHe _ _ _ _ _ _ E1 S) as [-> A1]. split; auto. intros w3 Hw. cbn. rewrite (A1 w3 Hw). reflexivity.
 Qed.
 
 Lemma pure_independent_lemma p : check p = true ->
   forall n f g w fr o w' fr' t, nth_error (funs p) f = Some g -> fmut g = Pure ->
-    exec n p w fr (fbody g) = Some (o, w', fr', t) ->
-    forall w2, ext_pure w2 = ext_pure w -> exec n p w2 fr (fbody g) = Some (o, w2, fr', t).
+    exec n p w fr (fbody g) = Done (o, w', fr', t) ->
+    forall w2, ext_pure w2 = ext_pure w -> exec n p w2 fr (fbody g) = Done (o, w2, fr', t).
 Proof.
   intros Hc n f g w fr o w' fr' t Hf Hm H w2 Hw.
   pose proof (pure_silent_lemma p Hc n f g w fr o w' fr' t Hf Hm H) as S.
@@ -153,12 +153,12 @@ Qed.
 
 (* range(e, bound=K): the loop body runs at most K times, or the statement reverts *)
 Lemma loop_bound_lemma p n w fr i e K b o w' fr' t :
-  exec (S n) p w fr (SFor i (RBound e K) b) = Some (o, w', fr', t) ->
-  exists v w1 t1, eval n p w fr e = Some (v, w1, t1) /\ v <= K /\
-    exists t2, loop (fun w' fr' => exec n p w' fr' b) i (Z.to_nat v) 0 w1 fr = Some (o, w', fr', t2) /\ t = t1 ++ t2.
+  exec (S n) p w fr (SFor i (RBound e K) b) = Done (o, w', fr', t) ->
+  exists v w1 t1, eval n p w fr e = Done (v, w1, t1) /\ v <= K /\
+    exists t2, loop (fun w' fr' => exec n p w' fr' b) i (Z.to_nat v) 0 w1 fr = Done (o, w', fr', t2) /\ t = t1 ++ t2.
 Proof.
-  cbn. destruct (eval n p w fr e) as [[[v w1] t1]|] eqn:E1; [|discriminate].
+  cbn. destruct (eval n p w fr e) as [[[v w1] t1]| |] eqn:E1; try discriminate.
   destruct (K <? v) eqn:EK; [discriminate|].
-  destruct (loop _ i (Z.to_nat v) 0 w1 fr) as [[[[o2 w2] fr2] t2]|] eqn:E2; [|discriminate].
+  destruct (loop _ i (Z.to_nat v) 0 w1 fr) as [[[[o2 w2] fr2] t2]| |] eqn:E2; try discriminate.
   intros H. inversion H; subst. exists v, w1, t1. repeat split; auto. lia. exists t2. split; auto.
 Qed.
